@@ -88,6 +88,9 @@ pub enum Req {
     PayA,
     /// counterparty commitment 1 of channel 4 with an outgoing HTLC for the same hash
     PayB,
+    /// a new channel whose id the signer picks itself (the LDK flow): the id comes from a counter
+    /// in the key manager that no lock protects
+    NewRandom,
 }
 
 impl Req {
@@ -234,6 +237,10 @@ fn exec(c: &Ctx, r: Req) -> String {
         Req::Forget1 => tag(w.forget_channel(1).map_ok()),
         Req::Forget2 => tag(w.forget_channel(2).map_ok()),
         Req::New3 => tag(w.new_channel(3).map_ok()),
+        Req::NewRandom => {
+            let node = w.node.clone();
+            tag(call(move || node.new_channel_with_random_id(&node).map(|(id, _)| id.to_string()).map_err(|e| status_kind(&e))))
+        }
         Req::Setup2 => {
             let cp2 = Cp::new(120);
             let mut setup = w.default_setup(&cp2, 2, true, CommitmentType::StaticRemoteKey);
@@ -420,6 +427,9 @@ pub fn scenarios(tier: Tier) -> Vec<Scenario> {
     // two updates of the allowlist (memory and store must end up in the same order)
     v.push(Scenario { prep: vec![], reqs: vec![Allowlist, AllowlistB], then: vec![] });
     v.push(Scenario { prep: vec![Allowlist], reqs: vec![AllowlistRemove, AllowlistB], then: vec![] });
+    // two channels whose ids the signer picks itself, and one next to an explicit id
+    v.push(Scenario { prep: vec![], reqs: vec![NewRandom, NewRandom], then: vec![] });
+    v.push(Scenario { prep: vec![NewRandom], reqs: vec![NewRandom, New3], then: vec![] });
     // a channel is used while it is being set up
     v.push(Scenario { prep: vec![], reqs: vec![Setup2, SignCp2], then: vec![] });
     // two approvals while the wall clock crosses a velocity bucket boundary
@@ -1107,7 +1117,7 @@ pub fn main(tier: Tier) -> i32 {
             Err(e) => machinery_failure(&e),
         }
     }
-    run.assume("scheduling points are the mutex operations of the vls-core prelude (shuttle runtime); vls-core forbids unsafe code and its only lock-free shared state is fetch_add counters");
+    run.assume("scheduling points are the mutex operations of the vls-core prelude and the atomic counters of the key manager (both routed through the shuttle runtime by --cfg vls_verif); vls-core forbids unsafe code and has no other lock-free shared state");
     run.assume(&format!("every schedule with <= {} preemptions of each scenario (2 concurrent requests; thorough adds triples) on a node with one advanced channel, one stub and a confirmed funding; <= {} preemptions for the scenarios listed with bound {}", base, maxb, maxb));
     if complete[base] + aborted != idxs.len() && complete[base] != idxs.len() {
         machinery_failure(&format!("only {} of {} scenarios were explored completely at preemption bound {} within the budget", complete[base], idxs.len(), base));
